@@ -184,6 +184,10 @@ def generate(seed: int, tier: str = "quick") -> dict:
     qrng = seeds.stream(seed, "queries")
     cfg["handles"] = models.draw_queries(qrng, spec, fit, new, int(params["n_modes"]),
                                          k=rng.randint(1, 3), serde=False, with_input=False) if deferred else []
+    if name == "POP":
+        # POP's mode order within a conjugate pair and its eigenvector phase are not defined by the data: POP is
+        # observed through order- and phase-free invariants only (E1), not through raw lazy handles
+        cfg["handles"] = []
     cfg["handle_timing"] = [rng.choice(["now", "after_rot", "after_compute"]) for _ in cfg["handles"]]
     return cfg
 
